@@ -38,7 +38,7 @@ FillJudge(e) ==
 
 \* result: [v |-> verdict, s |-> the series the validation continues with (what the code really stores)]
 AddJudge(e) ==
-  LET c == <<e.ts, e.v>>
+  LET c == IF "row" \in DOMAIN e THEN e.row ELSE <<e.ts, e.v>>      \* field-level traces carry the whole candle <<ts, o, c, h, l, v>>
       exp == Upsert(list, c)
       site == "add_candle(" \o Traces[tid].hdr.tf \o ")"
       where == IF list = <<>> THEN "first" ELSE IF e.ts > Last(list)[1] THEN "newer" ELSE IF e.ts = Last(list)[1] THEN "equal-to-last"
